@@ -269,6 +269,7 @@ var sizes = map[string]batchSizes{
 }
 
 type runOutcome struct {
+	prior      map[int][]int // run index -> the indices the same node process executed before it
 	results    map[int]*PlanResult
 	finals     []*workerFinal
 	deaths     []death
@@ -292,7 +293,7 @@ func runBatch(prop string, seed uint64, tier string, indices []int, workers int,
 		infra("mktemp: %v", err)
 	}
 	defer os.RemoveAll(dir)
-	oc := &runOutcome{results: map[int]*PlanResult{}, workers: workers}
+	oc := &runOutcome{results: map[int]*PlanResult{}, workers: workers, prior: map[int][]int{}}
 	var mu sync.Mutex
 	var wg sync.WaitGroup
 	parts := make([][]int, workers)
@@ -333,6 +334,12 @@ func runBatch(prop string, seed uint64, tier string, indices []int, workers int,
 					_ = cmd.Process.Kill()
 					infra("worker %d watchdog fired (no verdict)", j)
 				}
+				// what this node process executed before each plan
+				mu.Lock()
+				for k, v := range todo {
+					oc.prior[v] = append([]int{}, todo[:k]...)
+				}
+				mu.Unlock()
 				// read what it produced
 				doneIdx := map[int]bool{}
 				if f, err := os.Open(out); err == nil {
